@@ -22,14 +22,19 @@ PROPS = {
             "Hctl.C05.plain_rejects_ext",
             "Hctl.C05.ext_extends_plain",
             "Hctl.C05.parseOne_ext_of_plain",
+            "Hctl.C05.lexer_meets_spec",
+            "Hctl.C05.accepts_iff",
+            "Hctl.Lex.lex_complete",
+            "Hctl.Lex.lex_sound_rec",
         ],
         "ks": ["k2", "k1"],
-        "spec_tied": ["k2"],
-        "full": False,
-        "not_proved": "lexer: the plain/extended relation is proved for every text (plain_rejects_ext, ext_extends_plain, under "
-                      "the character-class fact that '%' is not alphanumeric); lex_sound/lex_complete of the tokenizer against a "
-                      "separate spelling specification are not proved: the model's tokenizer is tied to the code by K1 "
-                      "(exhaustive strings to a length bound + structured random)",
+        "spec_tied": ["k2", "k1"],
+        "full": True,
+        "not_proved": "nothing of the statement on the model: the parser accepts a token list iff it derives in the documented grammar "
+                      "(parse_iff_derives), the tokenizer accepts a text with tokens toks iff the text spells toks in the lexical "
+                      "specification Sp/Seg (lexer_meets_spec; both directions, every text), hence accepts_iff; nothing is dropped "
+                      "(accepted_frontier); plain rejects wild-cards/domains and the extended tokenizer extends the plain one. "
+                      "Premise: CharsOK, facts about Rust's character classes (checked against std by K1 on every run)",
         "rule": "K2: exhaustive token sequences by weight over 10 token kinds with groups nested <=2, plus token lists of "
                 "random trees (half mutated); non-trivial = accepted by the parser. K1: exhaustive strings over a 34-symbol "
                 "alphabet to a length bound, plus spelled random formulae (a third mutated); non-trivial = lexes to a "
@@ -203,12 +208,15 @@ PROPS = {
     "C08": {
         "module": "HctlProofs.Props.C08",
         "theorems": ["Hctl.C08.alpha_invariant", "Hctl.C08.paren_invariant", "Hctl.C08.paren_invariant_inner",
-                     "Hctl.C08.const_spelling_invariant", "Hctl.C08.copy_by_canonical_name"],
-        "ks": ["o08"],
-        "spec_tied": ["o08:pure_"],
-        "full": False,
-        "not_proved": "invariance under whitespace and long/short operator spellings is a statement about the tokenizer, which is "
-                      "tied by K1 and checked end-to-end by the O08 oracle, not proved",
+                     "Hctl.C08.const_spelling_invariant", "Hctl.C08.copy_by_canonical_name", "Hctl.C08.leading_ws_invariant",
+                     "Hctl.C08.ws_between_tokens", "Hctl.C08.hybrid_segment_ws", "Hctl.C08.long_short_invariant"],
+        "ks": ["o08", "k1"],
+        "spec_tied": ["o08:pure_", "k1"],
+        "full": True,
+        "not_proved": "nothing of the statement on the model: renaming (alpha_invariant), white space before/between tokens and inside "
+                      "hybrid segments (leading_ws_invariant, ws_between_tokens, hybrid_segment_ws), redundant parentheses, long versus "
+                      "short operator spellings (long_short_invariant) and constant spellings all leave the preprocessed tree unchanged, "
+                      "and everything downstream is a function of that tree; premise CharsOK (character classes)",
         "rule": "O08: random closed formulae x (4 consistent renamings incl. internal names permuted, 3 respellings with random "
                 "whitespace / long operator names / redundant parentheses / constant spellings, 1 composition); results must be equal",
         "assumptions": EVAL_ASSUME,
@@ -324,8 +332,8 @@ MANIFEST_TEXT = {
                 "tree's frontier (nothing dropped); the model is tied to /repo's parser and tokenizer on every run by exhaustive "
                 "(bounded) + random differential runs, and model-free oracles (frontier, plain-vs-extended) run on the implementation.",
         "note": "Trusted: Lean kernel, axioms {propext, Classical.choice, Quot.sound}, the correspondence harness. Modelled, not "
-                "verified: Rust std char classes ('%' not alphanumeric is a hypothesis). Plain-vs-extended is proved on the lexer "
-                "model for every text; the lexer is not proved against a separate lexical specification.",
+                "verified: Rust std char classes (CharsOK is a hypothesis, checked against std by K1). The tokenizer model is proved "
+                "sound and complete for the lexical specification Sp/Seg (every text).",
         "technique": "Lean 4 proof (parser = grammar, by induction on fuel / derivations) + differential correspondence check",
     },
 }
@@ -388,7 +396,7 @@ MANIFEST_TEXT.update({
     "C08": {"text": "Lean theorems: alpha-equivalent accepted inputs are preprocessed to the same tree; redundant parentheses (outer and "
                     "around any sub-formula) and constant spellings do not change the parse; the evaluator reads variables by canonical "
                     "name. Oracle: results of rewritten texts (renaming, whitespace, parentheses, long names, constants) through the API.",
-            "note": _FRONT_NOTE + " Whitespace/long-spelling invariance of the tokenizer is tied by correspondence, not proved.",
+            "note": _FRONT_NOTE + " Whitespace/long-spelling invariance is proved from the lexical specification the tokenizer model meets.",
             "technique": "Lean 4 proof (corollaries of C05/C07) + differential correspondence check + rewrite oracle"},
 })
 
